@@ -102,9 +102,9 @@ func runCheck(args []string) {
 		cr.undecided = append(cr.undecided, "contract syntax: "+er)
 	}
 	cr.collect()
-	t1, t2 := 3, 15
+	t1, t2 := 4, 45
 	if *tier == "thorough" {
-		t1, t2 = 10, 120
+		t1, t2 = 10, 150
 	}
 	dir := filepath.Join(os.TempDir(), fmt.Sprintf("gocv_%s_%d", *prop, os.Getpid()))
 	defer os.RemoveAll(dir)
@@ -425,7 +425,15 @@ func (cr *checkRun) report(verif, evPath string, seed int, t0 time.Time, writeBa
 	assumptions := append([]string{}, trusted...)
 	assumptions = append(assumptions, notes...)
 	assumptions = append(assumptions, propAssumptions[cr.prop]...)
+	// slowest obligations (stability monitoring)
+	sorted := append([]*Oblig{}, cr.obs...)
+	sort.Slice(sorted, func(i, j int) bool { return sorted[i].Secs > sorted[j].Secs })
+	var slowest []string
+	for i := 0; i < len(sorted) && i < 5; i++ {
+		slowest = append(slowest, fmt.Sprintf("%.2fs %s (%s)", sorted[i].Secs, sorted[i].Name, sorted[i].Solver))
+	}
 	cov := map[string]interface{}{
+		"slowest":            slowest,
 		"obligations":        len(cr.obs),
 		"discharged":         discharged,
 		"checker_cmd":        fmt.Sprintf("/verif/bin/gocv check -prop %s -tier %s", cr.prop, cr.tier),
